@@ -216,6 +216,46 @@ def run_schedule(cfg, chooser: Chooser):
         for n, t in tasks.items():
             if n in pending:
                 outcome[n] = "stranded"
+        if not pending and outcome.get("c") == "done":
+            # "every FUTURE receive / iteration terminates and every later send raises": late-comers on the closed channel,
+            # after whatever way the earlier receivers ended (flush sentinel, done() check, cancellation)
+            async def late():
+                for kind in ("anext", "receive", "send", "anext", "receive"):
+                    for _ in range(6):
+                        if kind == "send":
+                            d.log("call", "s_late", "send", (9, 0))
+                            try:
+                                await ch.send(Item((9, 0)))
+                                d.log("ret", "s_late", "send", "ok", (9, 0))
+                            except ChannelClosed:
+                                d.log("ret", "s_late", "send", "ChannelClosed", (9, 0))
+                            break
+                        d.log("call", "r_late", kind)
+                        try:
+                            x = await (ch.receive() if kind == "receive" else ch.__aiter__().__anext__())
+                        except ChannelDone:
+                            d.log("ret", "r_late", kind, "ChannelDone")
+                            break
+                        except StopAsyncIteration:
+                            d.log("ret", "r_late", kind, "StopAsyncIteration")
+                            break
+                        d.log("ret", "r_late", kind, x)
+                        if x is None:
+                            break
+                outcome["r_late"] = "done"
+
+            outcome["r_late"] = "stranded"
+            lt = loop.create_task(late())
+            for _ in range(40):
+                if lt.done():
+                    break
+                await asyncio.sleep(0)
+            if not lt.done():
+                lt.cancel()
+                await asyncio.gather(lt, return_exceptions=True)
+                outcome["r_late"] = "stranded"
+            elif lt.exception() is not None:
+                outcome["r_late"] = "error:" + type(lt.exception()).__name__
         return ch
 
     try:
